@@ -1,8 +1,9 @@
 (** The memory-store model refines the abstract store when no limit is configured
     (C07 [mem_refines_spec_nolimit]); the statement with limits is [mem_refines_spec_stmt]. *)
 From Coq Require Import List Arith Lia Sorted.
+From IV Require Proofs.FileStoreRefine.
 From IV Require Import Base.Bytes Base.BytesFacts Model.StoreSpec Model.StoreSpecImpl Model.MemStore
-  Proofs.StoreSpecFacts Proofs.StoreSpecRefine.
+  Proofs.StoreSpecFacts Proofs.StoreSpecRefine Proofs.StoreSpecLimits Proofs.MemStoreLoops.
 Import ListNotations.
 Local Open Scope nat_scope.
 
@@ -16,6 +17,7 @@ Definition mrep (iss : issued mid) (mb : str) (sb : list entry) : list (mid * ms
 Record RM (st : spec_store) (s : mem_store) (iss : issued mid) : Prop := {
   rm_box : forall mb, mb_msgs (get_mbox mb s) = mrep iss mb (box mb (live st));
   rm_last : forall mb, mb_last (get_mbox mb s) = count_of mb (counts st);
+  rm_fl : forall mb, mb_first (get_mbox mb s) <= S (mb_last (get_mbox mb s));
   rm_iss : forall mb, iss_of mid mb iss = seq 1 (count_of mb (counts st));
   rm_names : map fst (ms_boxes s) = map fst (counts st);
   rm_names_nd : NoDup (map fst (counts st)) }.
@@ -36,8 +38,6 @@ Proof.
   intros Hnd Hk. unfold handle_of, midof. rewrite (index_of_nth mid Nat.eqb meqb_eq) by assumption. reflexivity.
 Qed.
 
-Definition klt2 (a b : mid * msg) : Prop := fst a < fst b.
-
 Lemma ins_head p l : Forall (klt2 p) l -> ins_by_index p l = p :: l.
 Proof.
   destruct l as [|q l]; [reflexivity|]. intros H. inversion H; subst. simpl.
@@ -50,20 +50,44 @@ Proof.
   simpl. rewrite IH by exact H1. apply ins_head. exact H2.
 Qed.
 
+(** The part of the relation that concerns the eviction cursor and the size enforcer:
+    [first] is at or below every live id of its mailbox; with a size limit the enforcer's list
+    is exactly the live messages in global arrival order and [curSize] is their total size. *)
+Definition RX (cfg : scfg) (st : spec_store) (s : mem_store) : Prop :=
+  (forall mb e, In e (box mb (live st)) -> mb_first (get_mbox mb s) <= S (e_k e)) /\ (c_max cfg <> 0%N -> ms_enf s = E (live st)).
+
+Lemma E_set_seen mb k l : E (set_seen mb k l) = E l.
+Proof.
+  unfold E. f_equal; [|apply total_set_seen]. unfold en_rep, set_seen. rewrite map_map. apply map_ext.
+  intros e. destruct (is_ent mb k e); reflexivity.
+Qed.
+
 Section Step.
 Variable cfg : scfg.
-Hypothesis no_max : c_max cfg = 0%N.
-Hypothesis no_cap : c_cap cfg = 0.
 
 Variables (st : spec_store) (s : mem_store) (iss : issued mid).
 Hypothesis HR : RM st s iss.
 Hypothesis HI : SInv st.
+Hypothesis HX : RX cfg st s.
 
 Lemma box_k_lt mb e : In e (box mb (live st)) -> e_k e < length (iss_of mid mb iss).
 Proof.
   intros He. apply box_in in He as [He Hm]. rewrite (rm_len _ _ _ HR). destruct HI as [_ H]. specialize (H e He).
   rewrite Hm in H. exact H.
 Qed.
+
+Lemma midof_S mb k : k < length (iss_of mid mb iss) -> midof iss mb k = S k.
+Proof.
+  intros Hk. unfold midof. rewrite (rm_iss _ _ _ HR). rewrite (rm_len _ _ _ HR) in Hk. rewrite seq_nth by exact Hk. reflexivity.
+Qed.
+
+Lemma mrep_mf mb sb : (forall e, In e sb -> In e (box mb (live st))) -> mrep iss mb sb = map mf sb.
+Proof.
+  intros Hsb. unfold mrep, rep. apply map_ext_in. intros e He. unfold mf. f_equal. apply midof_S. apply box_k_lt. auto.
+Qed.
+
+Lemma rm_box_S mb : mb_msgs (get_mbox mb s) = map mf (box mb (live st)).
+Proof. rewrite (rm_box _ _ _ HR). apply mrep_mf. auto. Qed.
 
 Lemma msgs_sorted mb : sort_by_index (mb_msgs (get_mbox mb s)) = mb_msgs (get_mbox mb s).
 Proof.
@@ -126,29 +150,36 @@ Lemma RM_update mb (L : list (mid * msg)) (l' : list entry) X :
   In mb (map fst (ms_boxes s)) ->
   L = mrep iss mb (box mb l') ->
   (forall mb', mb' <> mb -> box mb' l' = box mb' (live st)) ->
-  RM {| live := l'; counts := counts st |}
-     {| ms_boxes := bx_set mb (set_msgs (get_mbox mb s) L) (ms_boxes s); ms_enf := X |} iss.
+  (forall e, In e (box mb l') -> exists e0, In e0 (box mb (live st)) /\ e_k e0 = e_k e) ->
+  (c_max cfg <> 0%N -> X = E l') ->
+  let s' := {| ms_boxes := bx_set mb (set_msgs (get_mbox mb s) L) (ms_boxes s); ms_enf := X |} in
+  RM {| live := l'; counts := counts st |} s' iss /\ RX cfg {| live := l'; counts := counts st |} s'.
 Proof.
-  intros Hin HL Hother.
-  assert (Hg : forall mb', get_mbox mb' {| ms_boxes := bx_set mb (set_msgs (get_mbox mb s) L) (ms_boxes s); ms_enf := X |} =
+  intros Hin HL Hother Hks HE s'.
+  assert (Hg : forall mb', get_mbox mb' s' =
                           if list_eq_dec N.eq_dec mb' mb then set_msgs (get_mbox mb s) L else get_mbox mb' s).
-  { intros mb'. unfold get_mbox. simpl. destruct (list_eq_dec N.eq_dec mb' mb) as [->|Hne].
+  { intros mb'. unfold get_mbox, s'. simpl. destruct (list_eq_dec N.eq_dec mb' mb) as [->|Hne].
     - apply bx_get_set_same.
     - apply bx_get_set_other. congruence. }
-  constructor; simpl.
+  split; [constructor; simpl | split; simpl].
   - intros mb'. rewrite Hg. destruct (list_eq_dec N.eq_dec mb' mb) as [->|Hne].
     + simpl. exact HL.
     + rewrite Hother by exact Hne. apply (rm_box _ _ _ HR).
   - intros mb'. rewrite Hg. destruct (list_eq_dec N.eq_dec mb' mb) as [->|Hne]; simpl; apply (rm_last _ _ _ HR).
+  - intros mb'. rewrite Hg. destruct (list_eq_dec N.eq_dec mb' mb) as [->|Hne]; simpl; apply (rm_fl _ _ _ HR).
   - apply (rm_iss _ _ _ HR).
   - rewrite bx_set_names_in by exact Hin. apply (rm_names _ _ _ HR).
   - apply (rm_names_nd _ _ _ HR).
+  - intros mb' e He. rewrite Hg. destruct (list_eq_dec N.eq_dec mb' mb) as [->|Hne].
+    + simpl. destruct (Hks e He) as [e0 [H0 <-]]. apply (proj1 HX). exact H0.
+    + rewrite Hother in He by exact Hne. apply (proj1 HX). exact He.
+  - exact HE.
 Qed.
 
 Definition step_ok (o : op) : Prop :=
   let '(si', ob, evs) := step_impl mid Nat.eqb mem_store (exec_mem cfg) (s, iss) o in
   let '(st', ob', evs') := exec_spec cfg st o in
-  ob = ob' /\ evs = evs' /\ RM st' (fst si') (snd si').
+  ob = ob' /\ evs = evs' /\ RM st' (fst si') (snd si') /\ RX cfg st' (fst si').
 
 Lemma step_get mb h : step_ok (Get mb h).
 Proof.
@@ -205,6 +236,9 @@ Proof.
         apply (rep_seen mid Nat.eqb meqb_eq (midof iss mb) (length (iss_of mid mb iss)));
           [apply midof_inj; apply (rm_nd _ _ _ HR) | exact E | intros x Hx; apply box_k_lt; exact Hx | apply HI].
       * intros mb' Hne. apply box_seen_other. exact Hne.
+      * intros x Hx. rewrite box_seen_same in Hx. apply in_map_iff in Hx as [y [<- Hy]]. exists y. split; [exact Hy|].
+        unfold seen_k. destruct (Nat.eqb (e_k y) k); reflexivity.
+      * intros Hm. rewrite E_set_seen. apply (proj2 HX). exact Hm.
     + rewrite (find_id_none mb k E F). cbn. auto.
   - apply Nat.ltb_ge in E. rewrite find_h_kth_none by exact E. cbn. auto.
 Qed.
@@ -224,6 +258,9 @@ Proof.
         apply (rep_remove mid Nat.eqb meqb_eq (midof iss mb) (length (iss_of mid mb iss)));
           [apply midof_inj; apply (rm_nd _ _ _ HR) | exact E | intros x Hx; apply box_k_lt; exact Hx | apply HI].
       * intros mb' Hne. apply box_remove_other. exact Hne.
+      * intros x Hx. rewrite box_remove_same in Hx. apply filter_In in Hx as [Hx _]. exists x. auto.
+      * intros Hm. rewrite (proj2 HX Hm). rewrite midof_S by exact E.
+        apply enf_remove_ok; [exact Hm | apply HI | exact F].
     + rewrite (find_id_none mb k E F). cbn. auto.
   - apply Nat.ltb_ge in E. rewrite find_h_kth_none by exact E. cbn. auto.
 Qed.
@@ -236,24 +273,40 @@ Proof.
   apply box_in in Hsb as [_ Hm]. rewrite Hm. rewrite handle_of_midof; [reflexivity | apply (rm_nd _ _ _ HR) | exact Hk].
 Qed.
 
+Lemma purge_enf mb : c_max cfg <> 0%N ->
+  fold_left (fun e p => enf_remove (c_max cfg) mb (fst p) (m_size (snd p)) e)
+            (sort_by_index (mb_msgs (get_mbox mb s))) (ms_enf s) =
+  E (filter (fun e => negb (ent_in mb e)) (live st)).
+Proof.
+  intros Hm. rewrite msgs_sorted, rm_box_S, (proj2 HX Hm).
+  pose proof (enf_fold (c_max cfg) mb Hm (length (box mb (live st))) (live st) (proj1 HI)) as H.
+  rewrite firstn_all in H. unfold enf_step in H. rewrite H. f_equal. apply remove_many_all. apply HI.
+Qed.
+
 Lemma step_purge mb : step_ok (Purge mb).
 Proof.
   unfold step_ok. cbn [step_impl exec_spec exec_mem]. cbn [tr_unit]. split; [reflexivity|]. split.
   - rewrite msgs_sorted. rewrite (rm_box _ _ _ HR). apply del_events_ok. auto.
-  - cbn [fst snd]. destruct (mb_msgs (get_mbox mb s)) as [|p L] eqn:EL.
-    + constructor; simpl.
+  - cbn [fst snd]. pose proof (purge_enf mb) as HP. revert HP.
+    destruct (mb_msgs (get_mbox mb s)) as [|p L] eqn:EL; intros HP.
+    + split; [constructor; simpl | split; simpl].
       * intros mb'. destruct (list_eq_dec N.eq_dec mb' mb) as [->|Hne].
         -- unfold get_mbox in *. simpl. rewrite EL, box_purge_same. reflexivity.
         -- rewrite box_purge_other by exact Hne. apply (rm_box _ _ _ HR).
       * apply (rm_last _ _ _ HR).
+      * apply (rm_fl _ _ _ HR).
       * apply (rm_iss _ _ _ HR).
       * apply (rm_names _ _ _ HR).
       * apply (rm_names_nd _ _ _ HR).
+      * intros mb' e He. rewrite box_filter in He. apply filter_In in He as [He _]. apply (proj1 HX). exact He.
+      * exact HP.
     + apply RM_update.
       * rewrite (rm_box _ _ _ HR) in EL. destruct (box mb (live st)) as [|e sb] eqn:EB; [discriminate|].
         apply (mb_in_names mb e). rewrite EB. left; reflexivity.
       * rewrite box_purge_same. reflexivity.
       * intros mb' Hne. apply box_purge_other. exact Hne.
+      * intros e He. rewrite box_purge_same in He. destruct He.
+      * exact HP.
 Qed.
 
 Lemma step_visit : step_ok Visit.
@@ -270,7 +323,7 @@ Qed.
 
 End Step.
 
-(* ------------------------------------------------------------------ AddMessage (no limits) *)
+(* ------------------------------------------------------------------ AddMessage *)
 Lemma NoDup_snoc_m {A} (l : list A) a : NoDup l -> ~ In a l -> NoDup (l ++ [a]).
 Proof.
   intros H Ha. induction l as [|x l IH]; simpl; [repeat constructor; auto|].
@@ -279,94 +332,287 @@ Proof.
   - apply IH; [exact Hl | intros Hin; apply Ha; right; exact Hin].
 Qed.
 
+Notation cap_d := FileStoreRefine.cap_d.
+
 Section StepAdd.
 Variable cfg : scfg.
-Hypothesis no_max : c_max cfg = 0%N.
-Hypothesis no_cap : c_cap cfg = 0.
 Variables (st : spec_store) (s : mem_store) (iss : issued mid).
 Hypothesis HR : RM st s iss.
 Hypothesis HI : SInv st.
+Hypothesis HX : RX cfg st s.
+Variables (mb : str) (m : msg).
 
-Lemma mem_add_char mb m :
-  let b := get_mbox mb s in
-  mem_add cfg s mb m =
-  ({| ms_boxes := bx_set mb {| mb_first := mb_first b; mb_last := S (mb_last b); mb_msgs := mb_msgs b ++ [(S (mb_last b), m)] |} (ms_boxes s);
-      ms_enf := ms_enf s |}, LAdd (S (mb_last b)), []).
-Proof. intros b. unfold mem_add. fold b. rewrite no_cap, no_max. reflexivity. Qed.
+Let k := count_of mb (counts st).
+Let L := iss_of mid mb iss.
+Let sb0 := box mb (live st).
+Let nw := {| e_mb := mb; e_k := k; e_msg := m |}.
+Let d := cap_d cfg (length sb0).
+Let cnt' := bump mb (counts st).
+Let iss' := bx_set mb (L ++ [S k]) iss.
+Let lc := snd (drop_oldest mb d (live st)).
+Let l2 := lc ++ [nw].
 
-Lemma step_add mb date tag size : step_ok cfg st s iss (Add mb date tag size).
+Lemma d_le : d <= length sb0.
+Proof. unfold d, cap_d. destruct (Nat.eqb (c_cap cfg) 0) eqn:Q; [lia|]. apply Nat.eqb_neq in Q. lia. Qed.
+
+Lemma drop_oldest_0 n l : drop_oldest n 0 l = ([], l).
+Proof. destruct l; reflexivity. Qed.
+
+Lemma add_cap_eq : add_cap cfg mb (add_l1 st mb m) = (firstn d sb0, l2).
 Proof.
-  unfold step_ok. cbn [step_impl exec_spec].
-  set (m := {| m_date := date; m_tag := tag; m_size := size; m_seen := false |}).
-  set (L := iss_of mid mb iss) in *.
-  set (sb0 := box mb (live st)).
-  set (k := count_of mb (counts st)).
+  unfold add_cap, add_l1. fold k nw.
+  assert (Hd : d = if Nat.eqb (c_cap cfg) 0 then 0 else length sb0 + 1 - c_cap cfg) by reflexivity.
+  destruct (Nat.eqb (c_cap cfg) 0) eqn:Q.
+  - unfold l2, lc. rewrite Hd. rewrite drop_oldest_0. reflexivity.
+  - apply Nat.eqb_neq in Q.
+    assert (Hb : length (box mb (live st ++ [nw])) - c_cap cfg = d).
+    { rewrite Hd, box_app, app_length. simpl. assert (ent_in mb nw = true) as -> by (apply ent_in_eq; reflexivity). reflexivity. }
+    rewrite Hb. rewrite drop_oldest_snoc by (fold sb0; rewrite Hd; lia).
+    pose proof (drop_oldest_spec mb d (live st)) as Hs. unfold l2, lc.
+    destruct (drop_oldest mb d (live st)) as [dd rr]. simpl in *. f_equal. tauto.
+Qed.
+
+Lemma lc_box : box mb lc = skipn d sb0 /\ (forall mb', mb' <> mb -> box mb' lc = box mb' (live st)) /\ (forall e, In e lc -> In e (live st)).
+Proof.
+  pose proof (drop_oldest_spec mb d (live st)) as Hs. fold lc in Hs. unfold lc.
+  destruct (drop_oldest mb d (live st)) as [dd rr]. simpl. tauto.
+Qed.
+
+Lemma l2_box : box mb l2 = skipn d sb0 ++ [nw] /\ (forall mb', mb' <> mb -> box mb' l2 = box mb' (live st)).
+Proof.
+  destruct lc_box as [H1 [H2 _]]. unfold l2. split.
+  - rewrite box_app, H1. simpl. assert (ent_in mb nw = true) as -> by (apply ent_in_eq; reflexivity). reflexivity.
+  - intros mb' Hne. rewrite box_app, H2 by exact Hne. simpl.
+    assert (ent_in mb' nw = false) as -> by (apply ent_in_neq; simpl; congruence). apply app_nil_r.
+Qed.
+
+Lemma l2_LInv : LInv cnt' l2.
+Proof.
+  pose proof (LInv_snoc _ _ mb m HI) as H1. fold k nw cnt' in H1.
+  pose proof (LInv_drop cnt' mb d _ H1) as H2. rewrite drop_oldest_snoc in H2 by (fold sb0; apply d_le). exact H2.
+Qed.
+
+Lemma iss'_seq mb' : iss_of mid mb' iss' = seq 1 (count_of mb' cnt').
+Proof.
+  unfold iss', iss_of, cnt'. destruct (list_eq_dec N.eq_dec mb' mb) as [->|Hne].
+  - rewrite bx_get_set_same, count_bump_same. fold k. unfold L. rewrite (rm_iss _ _ _ HR). fold k. rewrite seq_S. reflexivity.
+  - rewrite bx_get_set_other by congruence. rewrite count_bump_other by congruence. apply (rm_iss _ _ _ HR).
+Qed.
+
+Lemma midof' mb' k0 : k0 < count_of mb' cnt' -> midof iss' mb' k0 = S k0.
+Proof. intros H. unfold midof. rewrite iss'_seq. rewrite seq_nth by exact H. reflexivity. Qed.
+
+Lemma handle_of' mb' k0 : k0 < count_of mb' cnt' -> handle_of mid Nat.eqb iss' mb' (S k0) = k0.
+Proof.
+  intros H. rewrite <- (midof' mb' k0 H). apply handle_of_midof.
+  - rewrite iss'_seq. apply seq_NoDup.
+  - rewrite iss'_seq, seq_length. exact H.
+Qed.
+
+Lemma tr_evd e : e_k e < count_of (e_mb e) cnt' -> tr_ev mid Nat.eqb iss' (evd e) = ev_deleted e.
+Proof. intros H. unfold evd, ev_deleted. cbn [tr_ev]. rewrite handle_of' by exact H. reflexivity. Qed.
+
+Lemma cnt'_ge e : In e (live st) -> e_k e < count_of (e_mb e) cnt'.
+Proof.
+  intros He. destruct HI as [_ H]. specialize (H e He). unfold cnt'.
+  destruct (list_eq_dec N.eq_dec mb (e_mb e)) as [Heq|Hne].
+  - rewrite <- Heq in *. rewrite count_bump_same. apply Nat.lt_lt_succ_r. exact H.
+  - rewrite count_bump_other by exact Hne. exact H.
+Qed.
+
+Lemma names' : (forall b : mbox, map fst (bx_set mb b (ms_boxes s)) = map fst cnt') /\ NoDup (map fst cnt').
+Proof.
+  unfold cnt'. destruct (in_dec (list_eq_dec N.eq_dec) mb (map fst (counts st))) as [Hin|Hin].
+  - rewrite bump_names_in by exact Hin. split; [|apply (rm_names_nd _ _ _ HR)].
+    intros b. rewrite bx_set_names_in by (rewrite (rm_names _ _ _ HR); exact Hin). apply (rm_names _ _ _ HR).
+  - rewrite bump_names_notin by exact Hin. split; [|apply NoDup_snoc_m; [apply (rm_names_nd _ _ _ HR) | exact Hin]].
+    intros b. rewrite bx_set_names_notin by (rewrite (rm_names _ _ _ HR); exact Hin). rewrite (rm_names _ _ _ HR). reflexivity.
+Qed.
+
+(** Whatever the final mailbox map [B], enforcer [X] and live list [l3]: if they agree mailbox by
+    mailbox, the new state is related. *)
+Lemma add_finish (B : list (str * mbox)) (X : enforcer) (l3 : list entry) :
+  (forall mb', mb_msgs (gbox mb' B) = map mf (box mb' l3)) ->
+  (forall mb', mb_last (gbox mb' B) = count_of mb' cnt') ->
+  (forall mb', mb_first (gbox mb' B) <= S (mb_last (gbox mb' B))) ->
+  (forall mb' e, In e (box mb' l3) -> mb_first (gbox mb' B) <= S (e_k e)) ->
+  map fst B = map fst cnt' ->
+  LInv cnt' l3 ->
+  (c_max cfg <> 0%N -> X = E l3) ->
+  let st' := {| live := l3; counts := cnt' |} in
+  let s' := {| ms_boxes := B; ms_enf := X |} in
+  RM st' s' iss' /\ RX cfg st' s'.
+Proof.
+  intros Ha Hb Hfl Hc Hd He Hf st' s'. split; [constructor | split]; simpl.
+  - intros mb'. change (get_mbox mb' s') with (gbox mb' B). rewrite Ha. unfold mrep, rep. apply map_ext_in.
+    intros e Hin. unfold mf. f_equal. symmetry. apply midof'. apply box_in in Hin as [Hin Hm]. rewrite <- Hm. apply He. exact Hin.
+  - intros mb'. change (get_mbox mb' s') with (gbox mb' B). apply Hb.
+  - intros mb'. change (get_mbox mb' s') with (gbox mb' B). apply Hfl.
+  - apply iss'_seq.
+  - exact Hd.
+  - apply names'.
+  - intros mb' e Hin. change (get_mbox mb' s') with (gbox mb' B). apply Hc. exact Hin.
+  - exact Hf.
+Qed.
+
+Lemma msgs1_eq : mb_msgs (get_mbox mb s) ++ [(S (mb_last (get_mbox mb s)), m)] = map mf (sb0 ++ [nw]).
+Proof.
+  rewrite (rm_box_S st s iss HR HI), (rm_last _ _ _ HR). rewrite map_app. reflexivity.
+Qed.
+
+Lemma sb_sorted2 : StronglySorted klt2 (map mf (sb0 ++ [nw])).
+Proof.
+  pose proof (proj1 l2_LInv mb) as H. destruct l2_box as [Hb _].
+  assert (Hs : StronglySorted klt (sb0 ++ [nw])).
+  { pose proof (LInv_snoc _ _ mb m HI) as [H1 _]. specialize (H1 mb). rewrite box_app in H1. simpl in H1.
+    fold k nw in H1. assert (ent_in mb nw = true) as E1 by (apply ent_in_eq; reflexivity). rewrite E1 in H1. exact H1. }
+  eapply SS_map; [|exact Hs]. intros a b0 Hab. unfold klt2, mf, klt in *. simpl. lia.
+Qed.
+
+Lemma cap_part :
+  let b := get_mbox mb s in
+  exists first2,
+    (if Nat.eqb (c_cap cfg) 0 then (mb_first b, mb_msgs b ++ [(S (mb_last b), m)], [])
+     else cap_loop (S (S (S (mb_last b)) - mb_first b)) (c_cap cfg) (mb_first b) (mb_msgs b ++ [(S (mb_last b), m)]) [])
+    = (first2, map mf (skipn d sb0 ++ [nw]), map mf (firstn d sb0)) /\
+    (forall e, In e (skipn d sb0 ++ [nw]) -> first2 <= S (e_k e)) /\ first2 <= S (S k).
+Proof.
+  intros b. unfold b. rewrite msgs1_eq.
+  assert (Hd : d = if Nat.eqb (c_cap cfg) 0 then 0 else length sb0 + 1 - c_cap cfg) by reflexivity.
+  assert (Hbound : forall p, In p (map mf (sb0 ++ [nw])) -> mb_first (get_mbox mb s) <= fst p <= S k).
+  { intros p Hp. apply in_map_iff in Hp as [e [<- He]]. simpl. apply in_app_or in He as [He|[<-|[]]].
+    - split; [apply (proj1 HX mb e He)|]. pose proof (box_k_lt st s iss HR HI mb e He) as Hl.
+      rewrite (rm_len _ _ _ HR) in Hl. fold k in Hl. lia.
+    - simpl. pose proof (rm_fl _ _ _ HR mb) as Hfl. rewrite (rm_last _ _ _ HR) in Hfl. fold k in Hfl. lia. }
+  pose proof d_le as Hdl.
+  destruct (Nat.eqb (c_cap cfg) 0) eqn:Q.
+  - exists (mb_first (get_mbox mb s)). rewrite Hd. cbn [skipn firstn map]. repeat split.
+    + intros e He. apply (Hbound (mf e)). apply in_map. exact He.
+    + pose proof (rm_fl _ _ _ HR mb) as Hfl. rewrite (rm_last _ _ _ HR) in Hfl. fold k in Hfl. lia.
+  - apply Nat.eqb_neq in Q. rewrite (rm_last _ _ _ HR). fold k.
+    destruct (cap_loop_spec (c_cap cfg) (S k) ltac:(lia) (S (S (S k) - mb_first (get_mbox mb s))) (mb_first (get_mbox mb s))
+               (map mf (sb0 ++ [nw])) [] sb_sorted2 Hbound ltac:(lia)) as [f2 [H1 H2]].
+    exists f2. rewrite map_length, app_length in H1, H2. simpl length in H1, H2.
+    replace (length sb0 + 1 - c_cap cfg) with d in H1, H2 by (rewrite Hd; reflexivity).
+    rewrite skipn_map, firstn_map in H1. rewrite skipn_map in H2.
+    rewrite skipn_app, firstn_app in H1. rewrite skipn_app in H2.
+    replace (d - length sb0) with 0 in H1, H2 by lia. cbn [skipn firstn] in H1, H2. rewrite app_nil_r in H1.
+    split; [exact H1|]. split.
+    + intros e He. apply (H2 (mf e)). apply in_map. exact He.
+    + specialize (H2 (mf nw)). simpl in H2. apply Nat.le_le_succ_r. apply H2. apply in_map. apply in_or_app. right. left. reflexivity.
+Qed.
+
+Lemma add_conclude (s' : mem_store) (l3 d2 : list entry) :
+  let st' := {| live := l3; counts := cnt' |} in
+  RM st' s' iss' /\ RX cfg st' s' -> SInv st' ->
+  (forall e, In e d2 -> e_k e < count_of (e_mb e) cnt') ->
+  OAdd (length L) (tr_msg mid Nat.eqb iss' mb (LMsg (mem_get s' mb (QId (S k))))) =
+    OAdd k (res_of_find (find_h mb (Kth k) l3)) /\
+  map (tr_ev mid Nat.eqb iss') (map (fun p : mid * msg => (EDeleted, mb, fst p)) (map mf (firstn d sb0)) ++ map evd d2)
+    ++ [(EStored, mb, length L)] ++ [] =
+  map ev_deleted (firstn d sb0) ++ map ev_deleted d2 ++ [(EStored, mb, k)].
+Proof.
+  intros st' [HR' HX'] HI' Hd2.
   assert (HkL : length L = k) by (apply (rm_len _ _ _ HR)).
-  assert (HLs : L = seq 1 k) by (apply (rm_iss _ _ _ HR)).
-  cbn [exec_mem]. rewrite mem_add_char. cbv zeta. rewrite (rm_last _ _ _ HR). fold k.
-  set (s1 := {| ms_boxes := _; ms_enf := ms_enf s |}).
+  assert (Hk' : k < length (iss_of mid mb iss')).
+  { rewrite iss'_seq, seq_length. unfold cnt'. rewrite count_bump_same. fold k. lia. }
+  split.
+  - rewrite HkL. f_equal. cbn [find_h].
+    pose proof (get_id_ok st' s' iss' HR' HI' mb k Hk') as Hgo.
+    rewrite midof' in Hgo by (unfold cnt'; rewrite count_bump_same; fold k; lia). exact Hgo.
+  - rewrite HkL. rewrite map_app, <- app_assoc. f_equal; [|f_equal].
+    + rewrite !map_map. apply map_ext_in. intros e He.
+      assert (Hin : In e sb0). { rewrite <- (firstn_skipn d sb0). apply in_or_app. left; exact He. }
+      apply box_in in Hin as [Hin Hm]. cbn [mf fst]. rewrite <- Hm at 1.
+      change (EDeleted, e_mb e, S (e_k e)) with (evd e). apply tr_evd. apply cnt'_ge. exact Hin.
+    + rewrite map_map. apply map_ext_in. intros e He. apply tr_evd. apply Hd2. exact He.
+Qed.
+
+Lemma step_add date tag size :
+  m = {| m_date := date; m_tag := tag; m_size := size; m_seen := false |} ->
+  step_ok cfg st s iss (Add mb date tag size).
+Proof.
+  intros Hm. unfold step_ok. cbn [step_impl exec_spec]. rewrite <- Hm.
   pose proof (spec_add_LInv cfg st mb m HI) as HI'.
-  rewrite spec_add_unfold in *. cbv zeta in *.
-  unfold add_cap, add_fit, add_l1 in *. rewrite no_cap, no_max in *. simpl Nat.eqb in *. simpl N.eqb in *. cbv iota in *.
-  fold k in HI' |- *.
-  set (nw := {| e_mb := mb; e_k := k; e_msg := m |}) in *.
-  set (st' := {| live := live st ++ [nw]; counts := bump mb (counts st) |}) in *.
-  set (iss' := bx_set mb (L ++ [S k]) iss).
-  assert (HL' : iss_of mid mb iss' = L ++ [S k]) by (unfold iss', iss_of; apply bx_get_set_same).
-  assert (HLo : forall mb', mb' <> mb -> iss_of mid mb' iss' = iss_of mid mb' iss).
-  { intros mb' Hne. unfold iss', iss_of. apply bx_get_set_other. congruence. }
-  assert (HA : forall k0, k0 < length L -> midof iss' mb k0 = midof iss mb k0).
-  { intros k0 Hk0. unfold midof. rewrite HL'. apply app_nth1. exact Hk0. }
-  assert (HB : midof iss' mb k = S k).
-  { unfold midof. rewrite HL'. rewrite <- HkL. apply nth_middle. }
-  assert (Hb1 : box mb (live st ++ [nw]) = sb0 ++ [nw]).
-  { rewrite box_app. simpl. assert (ent_in mb nw = true) as -> by (apply ent_in_eq; reflexivity). reflexivity. }
-  assert (Ho1 : forall mb', mb' <> mb -> box mb' (live st ++ [nw]) = box mb' (live st)).
-  { intros mb' Hne. rewrite box_app. simpl. assert (ent_in mb' nw = false) as -> by (apply ent_in_neq; simpl; congruence).
-    apply app_nil_r. }
-  assert (Hg : forall mb', get_mbox mb' s1 =
+  rewrite spec_add_unfold in *. cbv zeta in *. rewrite add_cap_eq in *. fold k in HI' |- *.
+  cbn [exec_mem]. unfold mem_add. cbv zeta.
+  destruct cap_part as [first2 [Hcap [Hf2 Hf2']]]. cbv zeta in Hcap. rewrite Hcap. clear Hcap.
+  rewrite (rm_last _ _ _ HR). fold k.
+  set (B1 := bx_set mb {| mb_first := first2; mb_last := S k; mb_msgs := map mf (skipn d sb0 ++ [nw]) |} (ms_boxes s)).
+  destruct l2_box as [Hl2a Hl2b].
+  assert (HgB1 : forall mb', gbox mb' B1 =
              if list_eq_dec N.eq_dec mb' mb
-             then {| mb_first := mb_first (get_mbox mb s); mb_last := S k; mb_msgs := mb_msgs (get_mbox mb s) ++ [(S k, m)] |}
+             then {| mb_first := first2; mb_last := S k; mb_msgs := map mf (skipn d sb0 ++ [nw]) |}
              else get_mbox mb' s).
-  { intros mb'. unfold get_mbox, s1. simpl. destruct (list_eq_dec N.eq_dec mb' mb) as [->|Hne].
+  { intros mb'. unfold gbox, B1, get_mbox. destruct (list_eq_dec N.eq_dec mb' mb) as [->|Hne].
     - apply bx_get_set_same.
     - apply bx_get_set_other. congruence. }
-  assert (HR' : RM st' s1 iss').
-  { constructor.
-    - intros mb'. rewrite Hg. destruct (list_eq_dec N.eq_dec mb' mb) as [->|Hne].
-      + simpl. rewrite Hb1. unfold mrep at 1, rep. rewrite map_app. simpl map. cbn [e_k e_msg nw]. rewrite HB. f_equal.
-        rewrite (rm_box _ _ _ HR). unfold mrep, rep. apply map_ext_in. intros e He. f_equal. symmetry. apply HA.
-        apply (box_k_lt st s iss HR HI mb). exact He.
-      + simpl live. rewrite Ho1 by exact Hne. unfold mrep, rep, midof. rewrite HLo by exact Hne. apply (rm_box _ _ _ HR).
-    - intros mb'. rewrite Hg. simpl counts. destruct (list_eq_dec N.eq_dec mb' mb) as [->|Hne].
-      + simpl. rewrite count_bump_same. reflexivity.
-      + rewrite count_bump_other by congruence. apply (rm_last _ _ _ HR).
-    - intros mb'. simpl counts. destruct (list_eq_dec N.eq_dec mb' mb) as [->|Hne].
-      + rewrite HL', count_bump_same. fold k. rewrite HLs. rewrite seq_S. reflexivity.
-      + rewrite HLo by exact Hne. rewrite count_bump_other by congruence. apply (rm_iss _ _ _ HR).
-    - unfold s1. simpl ms_boxes. simpl counts.
-      destruct (in_dec (list_eq_dec N.eq_dec) mb (map fst (counts st))) as [Hin|Hin].
-      + rewrite bump_names_in by exact Hin. rewrite bx_set_names_in; [apply (rm_names _ _ _ HR)|].
-        rewrite (rm_names _ _ _ HR). exact Hin.
-      + rewrite bump_names_notin by exact Hin. rewrite bx_set_names_notin; [rewrite (rm_names _ _ _ HR); reflexivity|].
-        rewrite (rm_names _ _ _ HR). exact Hin.
-    - simpl counts. destruct (in_dec (list_eq_dec N.eq_dec) mb (map fst (counts st))) as [Hin|Hin].
-      + rewrite bump_names_in by exact Hin. apply (rm_names_nd _ _ _ HR).
-      + rewrite bump_names_notin by exact Hin. apply NoDup_snoc_m; [apply (rm_names_nd _ _ _ HR) | exact Hin]. }
-  assert (Hk' : k < length (iss_of mid mb iss')) by (rewrite HL', app_length; simpl; lia).
-  fold L. cbn [fst snd map app].
-  split; [|split; [|exact HR']].
-  - rewrite HkL. f_equal. cbn [find_h].
-    pose proof (get_id_ok st' s1 iss' HR' HI' mb k Hk') as Hgo. rewrite HB in Hgo. exact Hgo.
-  - rewrite HkL. reflexivity.
+  assert (HB1m : forall mb', mb_msgs (gbox mb' B1) = map mf (box mb' l2)).
+  { intros mb'. rewrite HgB1. destruct (list_eq_dec N.eq_dec mb' mb) as [->|Hne].
+    - simpl. rewrite Hl2a. reflexivity.
+    - rewrite Hl2b by exact Hne. apply (rm_box_S st s iss HR HI). }
+  assert (HB1l : forall mb', mb_last (gbox mb' B1) = count_of mb' cnt').
+  { intros mb'. rewrite HgB1. unfold cnt'. destruct (list_eq_dec N.eq_dec mb' mb) as [->|Hne].
+    - simpl. rewrite count_bump_same. reflexivity.
+    - rewrite count_bump_other by congruence. apply (rm_last _ _ _ HR). }
+  assert (HB1fl : forall mb', mb_first (gbox mb' B1) <= S (mb_last (gbox mb' B1))).
+  { intros mb'. rewrite HgB1. destruct (list_eq_dec N.eq_dec mb' mb) as [->|Hne]; [simpl; exact Hf2' | apply (rm_fl _ _ _ HR)]. }
+  assert (HB1f : forall mb' e, In e (box mb' l2) -> mb_first (gbox mb' B1) <= S (e_k e)).
+  { intros mb' e He. rewrite HgB1. destruct (list_eq_dec N.eq_dec mb' mb) as [->|Hne].
+    - simpl. apply Hf2. rewrite <- Hl2a. exact He.
+    - rewrite Hl2b in He by exact Hne. apply (proj1 HX). exact He. }
+  assert (HB1n : map fst B1 = map fst cnt') by (apply (proj1 names')).
+  unfold add_fit in *.
+  destruct (c_max cfg =? 0)%N eqn:Q.
+  - (* no size limit *)
+    cbn [exec_mem fst snd]. 
+    set (X := fold_left _ _ (ms_enf s)).
+    assert (HRX : RM {| live := l2; counts := cnt' |} {| ms_boxes := B1; ms_enf := X |} iss' /\
+                  RX cfg {| live := l2; counts := cnt' |} {| ms_boxes := B1; ms_enf := X |}).
+    { apply add_finish; auto using l2_LInv. intros Hne. apply N.eqb_eq in Q. contradiction. }
+    destruct (add_conclude {| ms_boxes := B1; ms_enf := X |} l2 [] HRX HI' ltac:(intros e [])) as [Ho He].
+    cbn [map] in He. rewrite app_nil_r in He.
+    split; [exact Ho|]. split; [|exact HRX]. cbn [map app] in *. exact He.
+  - (* size limit *)
+    apply N.eqb_neq in Q.
+    assert (Henf : fold_left (fun e p => enf_remove (c_max cfg) mb (fst p) (m_size (snd p)) e) (map mf (firstn d sb0)) (ms_enf s) = E lc).
+    { rewrite (proj2 HX Q). pose proof (enf_fold (c_max cfg) mb Q d (live st) (proj1 HI)) as H. fold sb0 in H.
+      unfold enf_step in H. rewrite H. f_equal. apply remove_many_drop. apply HI. }
+    rewrite Henf. 
+    assert (Hall : en_all (E lc) ++ [(mb, S k, m_size m)] = en_rep l2).
+    { unfold l2, en_rep. rewrite map_app. reflexivity. }
+    assert (Hcur : (en_cur (E lc) + m_size m)%N = total l2).
+    { unfold l2. rewrite total_app. simpl. lia. }
+    rewrite Hall, Hcur. unfold en_rep at 1. rewrite map_length.
+    destruct (evict_loop_spec (c_max cfg) l2 B1 [] HB1m (proj1 l2_LInv)) as [B2 [He1 [He2 He3]]].
+    fold (en_rep l2). rewrite He1.
+    pose proof (evict_fit_spec (c_max cfg) l2) as Hfit.
+    destruct (evict_fit (c_max cfg) l2) as [d2 l3]. destruct Hfit as [Hsplit _]. cbn [fst snd] in *.
+    assert (Hsub : forall mb' e, In e (box mb' l3) -> In e (box mb' l2)).
+    { intros mb' e He. rewrite Hsplit, box_app. apply in_or_app. right; exact He. }
+    assert (HRX : RM {| live := l3; counts := cnt' |} {| ms_boxes := B2; ms_enf := {| en_all := en_rep l3; en_cur := total l3 |} |} iss' /\
+                  RX cfg {| live := l3; counts := cnt' |} {| ms_boxes := B2; ms_enf := {| en_all := en_rep l3; en_cur := total l3 |} |}).
+    { apply add_finish.
+      - intros mb'. apply (He2 mb').
+      - intros mb'. destruct (He2 mb') as [_ [_ H3]]. rewrite H3. apply HB1l.
+      - intros mb'. destruct (He2 mb') as [_ [H2 H3]]. rewrite H2, H3. apply HB1fl.
+      - intros mb' e He. destruct (He2 mb') as [_ [H2 _]]. rewrite H2. apply HB1f. apply Hsub. exact He.
+      - rewrite He3. exact HB1n.
+      - apply (LInv_suffix cnt' d2 l3). rewrite <- Hsplit. apply l2_LInv.
+      - reflexivity. }
+    assert (Hd2 : forall e, In e d2 -> e_k e < count_of (e_mb e) cnt').
+    { intros e He. apply (proj2 l2_LInv). rewrite Hsplit. apply in_or_app. left; exact He. }
+    destruct (add_conclude _ l3 d2 HRX HI' Hd2) as [Ho Hev].
+    cbn [exec_mem fst snd]. split; [exact Ho|]. split; [|exact HRX].
+    cbn [map app] in *. exact Hev.
 Qed.
 End StepAdd.
 
 (* ------------------------------------------------------------------ histories *)
-Lemma step_any cfg st s iss o : c_max cfg = 0%N -> c_cap cfg = 0 -> RM st s iss -> SInv st -> step_ok cfg st s iss o.
+Lemma step_any cfg st s iss o : RM st s iss -> SInv st -> RX cfg st s -> step_ok cfg st s iss o.
 Proof.
-  intros Hm Hc HR HI. destruct o.
-  - apply step_add; assumption.
+  intros HR HI HX. destruct o.
+  - eapply step_add; eauto.
   - apply step_get; assumption.
   - apply step_list; assumption.
   - apply step_seen; assumption.
@@ -376,37 +622,47 @@ Proof.
 Qed.
 
 Lemma RM_init : RM spec_init mem_init [].
-Proof. constructor; simpl; intros; try reflexivity; constructor. Qed.
+Proof. constructor; simpl; intros; try reflexivity; try constructor. repeat constructor. Qed.
 
-Lemma mem_run_sim cfg : c_max cfg = 0%N -> c_cap cfg = 0 -> forall ops st s iss, RM st s iss -> SInv st ->
-  run_impl mid Nat.eqb mem_store (exec_mem cfg) (s, iss) ops = run_spec cfg st ops.
+Lemma RX_init cfg : RX cfg spec_init mem_init.
+Proof. split; [intros mb e He; simpl in He; destruct He | intros _; reflexivity]. Qed.
+
+Lemma mem_run_sim cfg : forall ops st s iss, RM st s iss -> SInv st -> RX cfg st s ->
+  run_impl mid Nat.eqb mem_store (exec_mem cfg) (s, iss) ops = run_spec cfg st ops /\
+  (RM (final_spec cfg st ops) (fst (final_impl mid Nat.eqb mem_store (exec_mem cfg) (s, iss) ops))
+      (snd (final_impl mid Nat.eqb mem_store (exec_mem cfg) (s, iss) ops)) /\
+   RX cfg (final_spec cfg st ops) (fst (final_impl mid Nat.eqb mem_store (exec_mem cfg) (s, iss) ops))).
 Proof.
-  intros Hm Hc. induction ops as [|o ops IH]; intros st s iss HR HI; [reflexivity|].
-  pose proof (step_any cfg st s iss o Hm Hc HR HI) as Hs.
+  induction ops as [|o ops IH]; intros st s iss HR HI HX; [split; [reflexivity | split; assumption]|].
+  pose proof (step_any cfg st s iss o HR HI HX) as Hs.
   pose proof (exec_spec_SInv cfg st o HI) as HI'.
-  unfold step_ok in Hs. cbn [run_impl run_spec].
+  unfold step_ok in Hs. cbn [run_impl run_spec final_impl final_spec].
   destruct (step_impl mid Nat.eqb mem_store (exec_mem cfg) (s, iss) o) as [[[s' iss'] ob] evs].
-  destruct (exec_spec cfg st o) as [[st' ob'] evs']. destruct Hs as [-> [-> HR']]. simpl in HR', HI'.
-  f_equal. apply IH; assumption.
+  destruct (exec_spec cfg st o) as [[st' ob'] evs']. destruct Hs as [-> [-> [HR' HX']]]. simpl in HR', HX', HI'.
+  destruct (IH st' s' iss' HR' HI' HX') as [H1 H2]. split; [f_equal; exact H1 | exact H2].
 Qed.
 
-(** Every history on the memory-store model without limits yields, operation by operation,
-    the observations and events of the abstract store. *)
+(** [mem_refines_spec]: every history on the memory-store model, for every cap and every
+    size limit, yields operation by operation exactly the observations and events of the
+    abstract store. In particular the model never reaches the crash outcome [LPanic] (the
+    abstract store never answers [Err]). *)
+Theorem mem_refines_spec cfg ops : run_mem cfg ops = run_spec cfg spec_init ops.
+Proof. unfold run_mem. apply mem_run_sim; auto using RM_init, SInv_init, RX_init. Qed.
+
+(** [accounting_exact]: with a size limit, after every history the enforcer's list is exactly
+    the live messages in global arrival order and [curSize] is exactly their total size. *)
+Theorem accounting_exact cfg ops : c_max cfg <> 0%N ->
+  let s := fst (final_mem cfg ops) in let st := final_spec cfg spec_init ops in
+  en_all (ms_enf s) = en_rep (live st) /\ en_cur (ms_enf s) = total (live st).
+Proof.
+  intros Hm. cbv zeta. unfold final_mem.
+  destruct (mem_run_sim cfg ops spec_init mem_init [] RM_init SInv_init (RX_init cfg)) as [_ H].
+  destruct H as [_ HX]. unfold RX in HX. destruct HX as [_ HE].
+  specialize (HE Hm). split.
+  - transitivity (en_all (E (live (final_spec cfg spec_init ops)))); [f_equal; exact HE | reflexivity].
+  - transitivity (en_cur (E (live (final_spec cfg spec_init ops)))); [f_equal; exact HE | reflexivity].
+Qed.
+
 Theorem mem_refines_spec_nolimit cfg ops :
   c_cap cfg = 0 -> c_max cfg = 0%N -> run_mem cfg ops = run_spec cfg spec_init ops.
-Proof. intros Hc Hm. unfold run_mem. apply mem_run_sim; auto using RM_init, SInv_init. Qed.
-
-(** The full statement (cap loop with [first], size enforcer): not proved here; it is validated
-    by the correspondence check only. *)
-Definition mem_refines_spec_stmt : Prop := forall cfg ops, run_mem cfg ops = run_spec cfg spec_init ops.
-
-(** C08 statements about the memory model that need the refinement with limits; kept visible,
-    not proved (NOT_PROVED in lib/props/c08.py); the oracle enforces them on every run. *)
-Definition en_rep (l : list entry) : list (str * mid * N) := map (fun e => (e_mb e, S (e_k e), m_size (e_msg e))) l.
-Definition accounting_exact_stmt : Prop :=
-  forall cfg ops, c_max cfg <> 0%N ->
-    let s := fst (final_mem cfg ops) in let st := final_spec cfg spec_init ops in
-    en_all (ms_enf s) = en_rep (live st) /\ en_cur (ms_enf s) = total (live st).
-Definition fits_then_retrievable_stmt : Prop :=
-  forall cfg st mb date tag size, SInv st -> (c_max cfg = 0 \/ size <= c_max cfg)%N ->
-    exists v, snd (fst (exec_spec cfg st (Add mb date tag size))) = OAdd (count_of mb (counts st)) (Ok v) /\ m_size (snd v) = size.
+Proof. intros _ _. apply mem_refines_spec. Qed.
